@@ -141,6 +141,21 @@ def v_jit(p):
           walk(c)
       walk(e)
       return out
+    def value_names(e):
+      """names whose VALUE the expression reads (not under .shape / .size / .dtype / .ndim / len())"""
+      out = set()
+
+      def walk(n):
+        if isinstance(n, ast.Attribute) and n.attr in STATIC_ATTRS:
+          return
+        if isinstance(n, ast.Call) and isinstance(n.func, ast.Name) and n.func.id == 'len':
+          return
+        if isinstance(n, ast.Name):
+          out.add(n.id)
+        for c in ast.iter_child_nodes(n):
+          walk(c)
+      walk(e)
+      return out
     # values derived from traced parameters by plain assignment (one pass, conservative)
     derived = {}
     for n in ast.walk(fn):
@@ -157,7 +172,7 @@ def v_jit(p):
         if test is None:
           continue
         names = dynamic_names(test)
-        for nm in [x.id for x in ast.walk(test) if isinstance(x, ast.Name)]:
+        for nm in value_names(test):
           names |= derived.get(nm, set())
         if prm in names:
           uses.append(f'line {n.lineno}: `{ast.unparse(test)}`')
@@ -683,7 +698,9 @@ def v_rot(p, rank):
     ctx.assume(z3.And(*[d >= 1 for d in dims], size <= 2 ** 24, LEN(x0) == size, N2(x0) >= 0))
     ctx.assume(z3.If(same_key, k2 == k1, k2 != k1))
     e = CLOG(size)
-    for h in (L['mono'](25, e), L['succ'](24)):
+    # Lean clog_bounds: e = ceil(log2 size) is the least exponent with size <= 2^e (independent of how the code computes it)
+    ctx.assume(z3.And(e >= 0, size <= P2(e), P2(e) < 2 * size))
+    for h in (L['mono'](25, e), L['succ'](24), L['zero'](), L['gt_one'](e), L['pos'](e)):
       ctx.assume(h.formula)
     ctx.assume(P2(24) == 2 ** 24)      # p2 by evaluation
     kind, r = eng.run_function(ctx, ex_r.funcv(), [x, k1])
